@@ -37,7 +37,7 @@ struct RequirePathProcessor<'a, 'b, 'resources, PathLocatorImpl> {
     module_definitions: BuildModuleDefinitions,
     source: PathBuf,
     module_cache: HashMap<PathBuf, Expression>,
-    require_stack: Vec<PathBuf>,
+    require_stack: Vec<(PathBuf, PathBuf)>,
     skip_module_paths: HashSet<PathBuf>,
     resources: &'resources Resources,
     errors: Vec<String>,
@@ -117,7 +117,11 @@ impl<'a, 'b, 'resources, PathLocatorImpl: PathLocator>
             require_path.display()
         );
 
-        if self.skip_module_paths.contains(&require_path) {
+        // the same file can be reached through an absolute and a relative path, or through
+        // a path that leaves the current directory and comes back
+        let module_key = self.resources.identify(&require_path);
+
+        if self.skip_module_paths.contains(&module_key) {
             log::trace!(
                 "skip `{}` because it previously errored",
                 require_path.display()
@@ -125,11 +129,11 @@ impl<'a, 'b, 'resources, PathLocatorImpl: PathLocator>
             return None;
         }
 
-        match self.inline_require(&require_path, call) {
+        match self.inline_require(&require_path, &module_key, call) {
             Ok(expression) => Some(expression),
             Err(error) => {
                 self.errors.push(error.to_string());
-                self.skip_module_paths.insert(require_path);
+                self.skip_module_paths.insert(module_key);
                 None
             }
         }
@@ -138,23 +142,24 @@ impl<'a, 'b, 'resources, PathLocatorImpl: PathLocator>
     fn inline_require(
         &mut self,
         require_path: &Path,
+        module_key: &Path,
         call: &FunctionCall,
     ) -> DarkluaResult<Expression> {
-        if let Some(expression) = self.module_cache.get(require_path) {
+        if let Some(expression) = self.module_cache.get(module_key) {
             Ok(expression.clone())
         } else {
             if let Some(i) = self
                 .require_stack
                 .iter()
                 .enumerate()
-                .find(|(_, path)| **path == require_path)
+                .find(|(_, (key, _))| key == module_key)
                 .map(|(i, _)| i)
             {
                 let require_stack_paths: Vec<_> = self
                     .require_stack
                     .iter()
                     .skip(i)
-                    .map(|path| path.display().to_string())
+                    .map(|(_, path)| path.display().to_string())
                     .chain(iter::once(require_path.display().to_string()))
                     .collect();
 
@@ -164,7 +169,8 @@ impl<'a, 'b, 'resources, PathLocatorImpl: PathLocator>
                 )));
             }
 
-            self.require_stack.push(require_path.to_path_buf());
+            self.require_stack
+                .push((module_key.to_path_buf(), require_path.to_path_buf()));
             let required_resource = self.require_resource(require_path);
             self.require_stack.pop();
 
@@ -175,7 +181,7 @@ impl<'a, 'b, 'resources, PathLocatorImpl: PathLocator>
             )?;
 
             self.module_cache
-                .insert(require_path.to_path_buf(), module_value.clone());
+                .insert(module_key.to_path_buf(), module_value.clone());
 
             Ok(module_value)
         }
